@@ -153,6 +153,12 @@ pub fn size_family(n: u64) -> Vec<Kv> {
 
 pub fn replay(case: &Value) -> Result<String, String> {
     let kvs = if case["big_dense"].as_bool() == Some(true) { big_dense_variant(case["shift"].as_u64().unwrap_or(0) as usize) } else if case["size_family"].is_u64() { size_family(case["size_family"].as_u64().unwrap()) } else { kvs_from(&case["kvs"]) };
+    if case["many_builds"].as_bool() == Some(true) {
+        fn judge(kvs: &[Kv], bytes: &[u8]) -> Result<(), String> {
+            conforms(bytes, 0, kvs).map(|_| ())
+        }
+        return super::c15::run_many_builds_judged(false, Some(judge)).map(|c| format!("{} rebuilds decoded", c));
+    }
     if case["noisy"].as_bool() == Some(true) {
         return run_noisy(&kvs, geom_from(&case["geom"])).map(|n| format!("{} noisy builds conform", n));
     }
@@ -169,7 +175,7 @@ pub fn replay(case: &Value) -> Result<String, String> {
 pub fn plan(tier: Tier) -> Plan {
     let mut p = Plan::new("C09", "model_checking");
     let thorough = tier.thorough();
-    p.rule = "every byte string produced by the builder over the C01 space (all subsets of U_ab3/U_abc2/U_raw2 x value patterns x cache geometries; all 26 front ends (17 entry points + 6 usage variants: builders kept in use after rejected calls, several bulk calls on a populated builder + the 3 memory() constructors with into_fst/into_map/into_set) under the default geometry for small sets; fan-out families 0..256; a label family in which each of the 256 bytes labels single-transition nodes of both forms; type field in {0,1,255,u64::MAX}; size families 3000 / 70000 (thorough: 1200000) keys for 2-,3-,4-byte deltas) is decoded by an independent decoder written from the format description: header/footer fields, reference CRC, backwards tiling of the body without gap or overlap, every target 0 or an earlier tiled node, strictly increasing inputs, index table consistent, depth-first reading == model. Field-width minimality and the choice among legal node forms are not asserted. Also decoded: the output of raw/map/set builders kept in use after rejected calls (every subset of <= 5 keys of U_ab3; the model is what the builder accepted by its own answers) and builds through reluctant sinks (cap 1, cap 3, cap 2 with interrupts, 64-byte pages) of the small sets and fan-out families. non-trivial = files with >= 2 keys".into();
+    p.rule = "every byte string produced by the builder over the C01 space (all subsets of U_ab3/U_abc2/U_raw2 x value patterns x cache geometries; all 26 front ends (17 entry points + 6 usage variants: builders kept in use after rejected calls, several bulk calls on a populated builder + the 3 memory() constructors with into_fst/into_map/into_set) under the default geometry for small sets; fan-out families 0..256; a label family in which each of the 256 bytes labels single-transition nodes of both forms; type field in {0,1,255,u64::MAX}; size families 3000 / 70000 (thorough: 1200000) keys for 2-,3-,4-byte deltas) is decoded by an independent decoder written from the format description: header/footer fields, reference CRC, backwards tiling of the body without gap or overlap, every target 0 or an earlier tiled node, strictly increasing inputs, index table consistent, depth-first reading == model. Field-width minimality and the choice among legal node forms are not asserted. Also decoded: twelve probe inputs rebuilt 1 .. 65 537 builds after their first build on a thread that creates about 65 550 builders; the output of raw/map/set builders kept in use after rejected calls (every subset of <= 5 keys of U_ab3; the model is what the builder accepted by its own answers) and builds through reluctant sinks (cap 1, cap 3, cap 2 with interrupts, 64-byte pages) of the small sets and fan-out families. non-trivial = files with >= 2 keys".into();
     p.assumptions = vec!["the format description in DESIGN.md section C09 is the documented format; the decoder shares no code or table with the crate (its common-input table is a frozen literal)".into()];
     let small_geoms: Vec<Geom> = if thorough { GEOMS.iter().cloned().filter(|g| *g != DEFAULT_GEOM).collect() } else { vec![(1, 1), (2, 2), (0, 0)] };
     for u in [u_ab3(), u_abc2(), u_raw2()] {
@@ -365,6 +371,16 @@ pub fn plan(tier: Tier) -> Plan {
             do_case(&kvs, Front::RawInsert, (3, 3), 0, st, rep);
         }));
     }
+    p.units.push(unit("many-builds-on-one-thread-(finite-family)", "many builds".into(), move |st, rep| {
+        fn judge(kvs: &[Kv], bytes: &[u8]) -> Result<(), String> {
+            conforms(bytes, 0, kvs).map(|_| ())
+        }
+        st.states += 65_550;
+        match super::c15::run_many_builds_judged(false, Some(judge)) {
+            Ok(c) => { st.evals += c; st.count("rebuilds_decoded_after_many_builds", c); }
+            Err(msg) => rep.violation("many builds".into(), msg, json!({"many_builds": true})),
+        }
+    }));
     p.must_be_nonzero = vec!["calibrated_delta_cases_exactly_on_target".into(), "far_cases".into(), "label_cases".into(), "fanout_cases".into(), "nodes_with_index".into(), "nodes_one_trans_next".into(), "nodes_one_trans".into()];
     p
 }
